@@ -29,7 +29,9 @@ TECHNIQUE = 'exhaustive single/double fault injection (every cut, every 4-byte o
 LEVEL_TEXT = ('Every fault of a positional menu is applied to each base file (all cuts; every 4-byte window of lead-ins and metadata x 5 '
               'values; foreign / truncated / corrupted index) and every API scenario is run on the faulty input, from a path and from '
               'a caller stream, with and without index file; descriptors are counted through /proc/self/fd while any exception is '
-              'still alive, caller streams must stay open, reads after close() must raise or be correct.')
+              'still alive, caller streams (BytesIO, and an unbuffered raw stream for intact / cut files) must stay open, reads after '
+              'close() must raise or be correct, an exception raised inside the with-block must leave it; TdmsFile.read with memmap_dir '
+              'is a further scenario (descriptors of the data file must be gone although the arrays live on).')
 LEVEL_NOTE = ('Trusted: /proc/self/fd. Not judged: descriptors after TdmsFile.open() itself raises (the statement lists read, '
               'read_metadata, close() and the with-block). A per-execution watchdog and address-space limit turn hangs and blow-ups '
               'into raised outcomes.')
